@@ -234,7 +234,8 @@ func GoroutineCensus() map[string]int {
 			continue
 		}
 		if len(fr) > 6 {
-			fr = fr[:6]
+			// innermost four frames and outermost two (the entry point tells whose goroutine it is)
+			fr = append(append([]string(nil), fr[:4]...), fr[len(fr)-2:]...)
 		}
 		out[strings.Join(fr, " < ")]++
 	}
